@@ -330,14 +330,27 @@ var handlerOverrides = map[string]string{
 func init() {
 	register(&Property{
 		ID:          "C13",
-		Patterns:    append([]string{pkgRts}, enginePatterns...),
-		HarnessDirs: []string{"internal/check"},
+		Patterns:    append([]string{pkgRts, "github.com/ory/keto/internal/x/validate"}, enginePatterns...),
+		HarnessDirs: []string{"internal/check", "internal/relationtuple", "internal/expand"},
 		Assumptions: []string{"request values are arbitrary inhabitants of the request types (every optional pointer nil or not, repeated fields of length 0..limit+1, JSON arrays may hold null elements, numbers fully symbolic, names from pools of known/unknown namespaces and opaque strings)", "JSON decoding stubbed as 'arbitrary value of the static type or an error'", "engine core summarised by an uninterpreted function (fresh symbolic result per distinct argument tuple)", "status of an error computed as herodot does (first StatusCodeCarrier in the chain, else 500)"},
 		Outside:     []string{"HTTP parsing, routers, middleware, protobuf and JSON wire decoding"},
 		Runs: func(tier string) []Run {
 			a := Run{Name: "check-grpc", Pkg: pkgCheck, Harness: "HarnessC13CheckGRPC", Params: map[string]int64{"batch": pick(tier, 1, 2), "depths": pick(tier, 0, 1)}, Overrides: handlerOverrides, Reach: []string{"c13.grpc.check", "c13.grpc.batch"}}
 			b := Run{Name: "check-rest", Pkg: pkgCheck, Harness: "HarnessC13CheckREST", Params: map[string]int64{"batch": pick(tier, 1, 2), "depths": pick(tier, 0, 1)}, Overrides: handlerOverrides, Reach: []string{"c13.rest.get", "c13.rest.post", "c13.rest.batch"}}
-			return []Run{a, b}
+			rtOv := map[string]string{
+				"(*github.com/ory/keto/internal/driver/config.Config).NamespaceManager": "verifHCfgNamespaceManager",
+				"(*encoding/json.Decoder).Decode":                                       "verifJSONDecode",
+				"(*net/url.URL).Query":                                                  "verifURLQuery",
+			}
+			c := Run{Name: "relationtuple-read", Pkg: "github.com/ory/keto/internal/relationtuple", Harness: "HarnessC13Read", Params: map[string]int64{}, Overrides: rtOv, Reach: []string{"c13.read.grpc", "c13.read.rest"}}
+			d := Run{Name: "relationtuple-write", Pkg: "github.com/ory/keto/internal/relationtuple", Harness: "HarnessC13Write", Params: map[string]int64{}, Overrides: rtOv, Reach: []string{"c13.write.put", "c13.write.delete", "c13.write.patch", "c13.write.transact", "c13.write.grpc-delete"}}
+			exOv := map[string]string{
+				"(*github.com/ory/keto/internal/driver/config.Config).NamespaceManager": "verifHCfgNamespaceManager",
+				"(*github.com/ory/keto/internal/driver/config.Config).MaxReadDepth":     "verifHCfgMaxReadDepth",
+				"(*net/url.URL).Query":                                                  "verifURLQuery",
+			}
+			e := Run{Name: "expand", Pkg: "github.com/ory/keto/internal/expand", Harness: "HarnessC13Expand", Params: map[string]int64{}, Overrides: exOv, Reach: []string{"c13.expand.grpc", "c13.expand.rest"}}
+			return []Run{a, b, c, d, e}
 		},
 	})
 }
